@@ -31,7 +31,7 @@ SITES = [
     "composition_wrapped", "not_wrapped", "dependencies", "contains", "minmax_lengths",
 ]
 REQUIRED_COUNTERS = (
-    ["outcome.ok", "outcome.ValidationError", "parse.ok", "parse.hostile_schemas", "depth.judged",
+    ["outcome.ok", "outcome.ValidationError", "parse.ok", "parse.hostile_schemas", "depth.judged", "parse.raw_hostile_titles",
      "value.huge_int", "value.extreme_float", "value.surrogate", "value.nul", "value.long_string"]
     + [f"site.{s}" for s in SITES]
 )
@@ -327,17 +327,80 @@ def parser_and_calls(ctx, sut):
             ctx.witness("escape_on_notpassed." + outcome, {"schema": schema, "site": "notpassed"}, outcome)
 
 
+HOSTILE_TITLES = ["", " ", "!!!", "é", "日本語", "—", "???", "\ud800", "\x00", "1", "123", "a" * 500, "None", "Object",
+                  "\U0001F600", "_", "__", "-", "a-b", "ünï cödé", "\n", "title with spaces", "Ⅷ", "²"]
+
+
+def raw_parser_calls(ctx, sut):
+    """parse_element / parse on the caller's own dicts, WITHOUT the labeller's annotations: explicit
+    (possibly hostile) titles only.  Only the error family is judged."""
+    import copy as _copy  # pylint: disable=import-outside-toplevel
+
+    rng = ctx.rng
+    for idx in range(max(40, ctx.params["schemas"] // 2)):
+        title = rng.choice(HOSTILE_TITLES)
+        inner = {"type": "object", "title": title, "properties": {rng.choice(["a", "", "é"]): {"type": "string"}}}
+        shape = rng.choice(["root", "items", "definitions", "typelist", "property", "anyOf"])
+        if shape == "root":
+            schema = inner
+        elif shape == "items":
+            schema = {"type": "array", "items": inner}
+        elif shape == "definitions":
+            schema = {"type": "string", "definitions": {"d": inner}}
+        elif shape == "typelist":
+            schema = {"type": ["object", "null"], "title": title}
+        elif shape == "property":
+            schema = {"type": "object", "title": "Outer", "properties": {"p": inner}}
+        else:
+            schema = {"anyOf": [inner, {"type": "null"}]}
+        if "title" in schema and rng.random() < 0.2:
+            del schema["title"]  # a missing title is a documented SchemaParseError
+        for entry in ("parse_element", "parse"):
+            ctx.evaluation()
+            ctx.count("parse.raw_hostile_titles")
+            try:
+                if entry == "parse":
+                    sut.st_parser.parse(_copy.deepcopy(schema))
+                else:
+                    sut.st_parser.parse_element(_copy.deepcopy(schema))
+                ctx.count("parse.ok")
+            except BaseException as exc:  # pylint: disable=broad-except
+                if isinstance(exc, (KeyboardInterrupt, SystemExit)):
+                    raise
+                outcome = sut.outcome_class(exc)
+                ctx.count("parse." + outcome.replace("other:", "other_"))
+                if outcome not in ("SchemaParseError", "FeatureNotImplementedError"):
+                    ctx.witness("parse_escape." + outcome, {"schema": schema, "site": "raw_" + entry},
+                                f"{type(exc).__name__} escaped {entry} on a metaschema-valid schema: {exc!r}"[:400])
+        ctx.nontrivial(canon_safe([schema, shape]))
+
+
 def run_shard(ctx):
     from vlib import sut  # pylint: disable=import-outside-toplevel
 
     sites(ctx, sut)
     parser_and_calls(ctx, sut)
+    raw_parser_calls(ctx, sut)
 
 
 def replay(case, ctx):
     from vlib import sut  # pylint: disable=import-outside-toplevel
 
     schema = case["schema"]
+    if str(case.get("site", "")).startswith("raw_"):
+        import copy as _copy  # pylint: disable=import-outside-toplevel
+
+        ctx.evaluation()
+        try:
+            if case["site"] == "raw_parse":
+                sut.st_parser.parse(_copy.deepcopy(schema))
+            else:
+                sut.st_parser.parse_element(_copy.deepcopy(schema))
+        except BaseException as exc:  # pylint: disable=broad-except
+            outcome = sut.outcome_class(exc)
+            if outcome not in ("SchemaParseError", "FeatureNotImplementedError"):
+                ctx.witness("parse_escape." + outcome, case, repr(exc))
+        return
     try:
         element = sut.parse_direct(schema)
     except BaseException as exc:  # pylint: disable=broad-except
